@@ -652,6 +652,9 @@ class Interp:
                 v = self.havoc_unmodelled_attr(o, attr, n)
                 if v is not None:
                     return v
+            if o.cls not in self.front.classes and attr not in o.absent:
+                # an object of an external library (kernel, file, module stub): what the model does not describe is unknown, not absent
+                self.unsupported(f"attribute `{attr}` of an external object ({o.cls}) that its assumed contract does not describe", n)
             # attribute access on an object that does not have it
             self.implicit_exception(False, "AttributeError", n)
             raise PathEnd()
